@@ -760,6 +760,9 @@ impl Runner {
         }
         // end of case: final flush, sweep of the live device, reopen sweep
         let k = case.ops.len();
+        for f in &self.files {
+            f.set_op(k);
+        }
         let r = catch_unwind(AssertUnwindSafe(|| {
             block_on(async {
                 let live = sweep(&dev, case.size, 1u64 << params.get_bs_bits()).await;
